@@ -9,6 +9,7 @@
 #ifndef NIX_DATA_ARRAY_H
 #define NIX_DATA_ARRAY_H
 
+#include <algorithm>
 #include <nix/DataSet.hpp>
 
 #include <nix/base/EntityWithSources.hpp>
@@ -320,6 +321,12 @@ public:
             throw nix::InvalidDimension("The ticks of a range dimension must not be empty!",
                                         "DataArray::appendRangeDimension");
         }
+        if (!std::is_sorted(ticks.begin(), ticks.end())) {
+            throw UnsortedTicks("DataArray::appendRangeDimension");
+        }
+        if (unit.size() > 0 && !util::isSIUnit(unit)) {
+            throw InvalidUnit("Unit is not an atomic SI unit.", "DataArray::appendRangeDimension");
+        }
         RangeDimension dim = backend()->createRangeDimension(backend()->dimensionCount() + 1, ticks);
         if (label.size() > 0)
             dim.label(label);
@@ -371,6 +378,12 @@ public:
      */
     SampledDimension appendSampledDimension(double sampling_interval, const std::string &label="",
                                             const std::string &unit="", double offset=0.0) {
+        if (!(sampling_interval > 0.0)) {
+            throw std::runtime_error("DataArray::appendSampledDimension: Sampling intervals must be larger than 0.0!");
+        }
+        if (unit.size() > 0 && !util::isSIUnit(unit)) {
+            throw InvalidUnit("Unit is not an atomic SI unit.", "DataArray::appendSampledDimension");
+        }
         SampledDimension dim = backend()->createSampledDimension(backend()->dimensionCount() + 1,
                                                                  sampling_interval);
         if (label.size() > 0)
